@@ -43,7 +43,7 @@ for p in props:
     })
 m = {
     "version": 1,
-    "setup_cmd": "/venv/bin/python -c 'import hypothesis' 2>/dev/null || /venv/bin/pip install --no-index --find-links /opt/veriftools/wheels hypothesis",
+    "setup_cmd": "(/venv/bin/python -c 'import hypothesis' 2>/dev/null || /venv/bin/pip install --no-index --find-links /opt/veriftools/wheels hypothesis) && (test -d .deps/atheris || /venv/bin/pip install -q --no-index --find-links /opt/veriftools/wheels --target .deps atheris || true)",
     "hooks": {
         "guard": "TAHOE_LAFS_VERIF",
         "enable": "checks import /repo/src directly (PYTHONPATH=/repo/src, no build step); ./check exports TAHOE_LAFS_VERIF=1 but no hook commits exist: all interception (reactor, clock, urandom, file-mutation tracing) is installed from the harness",
